@@ -3,7 +3,7 @@
 //   enc <fmt> <tree tokens>   build the DOM with the public API, print hex(Xml::encode(tree, fmt))
 //   rt  <fmt> <tree tokens>   dump(Xml::decode(Xml::encode(tree, fmt)))
 //   sub <hex> <k>             decode, keep only the k-th node (document order, k mod count), release the tree, dump the survivor
-//   mut <hex> <k> <j> <how>   decode, detach child j of node k with remove|removee|clear|put, release the rest, dump the child
+//   mut <hex> <k> <j> <how>   decode, detach child j of node k with remove|removee|clear|put (or araw_remove|araw_clear|araw_resize|araw_assign on children()), release the rest, dump the child
 //   desc <hex>                decode, then `while (first child is an element) e = e.child(0);` on the only handle, dump e
 //   deep <n> <kind>           decode a document nested n levels (0: closed, 1: closed then mismatched end tag, 2: unclosed, 3: closed around the text "x")
 // tree tokens (preorder): E <hextag> <nattr> {<hexname> <hexval>} <nchildren> children... | T <hextext>
@@ -166,7 +166,13 @@ static std::string step(const Toks& t)
 			if (t[4] == "remove") p.remove(j);
 			else if (t[4] == "removee") p.remove(c);
 			else if (t[4] == "clear") p.clear();
-			else p.put(String("t"));
+			else if (t[4] == "put") p.put(String("t"));
+			// through the array that the non-const children() hands out (known finding raw-children-array: used by its probe only)
+			else if (t[4] == "araw_remove") p.children().remove(j);
+			else if (t[4] == "araw_clear") p.children().clear();
+			else if (t[4] == "araw_resize") p.children().resize(0);
+			else if (t[4] == "araw_assign") p.children()[j] = Xml("z");
+			else return "bad-op";
 			out = c.parent().isnull() ? "M+" : "M!";
 		}
 		out += c.parent().isnull() ? "R+" : "R!";
